@@ -19,6 +19,8 @@ import (
 	"sort"
 	"strconv"
 	"strings"
+	"sync"
+	"sync/atomic"
 	"time"
 	"unicode/utf8"
 
@@ -254,18 +256,18 @@ func (g c03gen) plain(n int) string {
 // operations
 
 type c03op struct {
-	kind      string
-	src, tgt  string
-	filter    string
-	ftype     string // "" = leave default
-	defaults  string
-	config    string
-	confirmed bool
-	timeout   uint
-	persist   string
-	persistID string
+	kind       string
+	src, tgt   string
+	filter     string
+	ftype      string // "" = leave default
+	defaults   string
+	config     string
+	confirmed  bool
+	timeout    uint
+	persist    string
+	persistID  string
 	wellFormed bool // the innerxml payload (if any) is well-formed XML
-	wantErr   bool   // the call must fail before anything is written
+	wantErr    bool // the call must fail before anything is written
 }
 
 func (g c03gen) op(small, exoticOK bool) c03op {
@@ -658,7 +660,7 @@ func c03runSession(v string, sc, nh bool, ops []c03op) c03obs {
 	}
 	s.Start()
 	dopts := []util.Option{options.WithCustomTransport(s), options.WithAuthBypass(),
-		options.WithTimeoutOps(3 * time.Second), options.WithReadDelay(20 * time.Microsecond)}
+		options.WithTimeoutOps(2 * time.Second), options.WithReadDelay(20 * time.Microsecond)}
 	if sc {
 		dopts = append(dopts, options.WithNetconfForceSelfClosingTags())
 	}
@@ -689,6 +691,9 @@ func c03runSession(v string, sc, nh bool, ops []c03op) c03obs {
 			o.inputs = append(o.inputs, nil)
 			o.framed = append(o.framed, nil)
 			if !ops[i].wantErr {
+				if errors.Is(err, util.ErrTimeoutError) {
+					c03timeouts.Add(1)
+				}
 				break // a request that got no reply: the rest of the session would only time out too
 			}
 			continue
@@ -773,20 +778,30 @@ func c03fscSig(impl, model, asIs []byte) string {
 func runC03(c *ctx) {
 	res := c.res
 	res.Rule = "sessions: {1.0,1.1} x ForceSelfClosingTags x ExcludeHeader x 1..30 requests drawn from get/get-config/edit-config/copy-config/delete-config/lock/unlock/validate/commit(+confirmed/timeout/persist)/discard/raw rpc with generated XML (attributes, namespaces, prefixed names, empty / white-space-only / already self-closed elements, same-name nesting, multi-byte text, '##' and '#<n>' lines, 1..20000 bytes) plus malformed payloads; direct: ForceSelfClosingTags on generated XML and tag soup. non-trivial = a request that was sent (distinct by version/options/position/bytes) or a direct rewrite input containing '</'"
-	var sess []c03sessCase
+	type sessParam struct {
+		v      string
+		sc, nh bool
+		seed   uint64
+		nops   int
+		small  bool
+	}
+	var sess []sessParam
 	var direct [][]byte
-	directClass := map[int]string{}
+	var directClass []string
+	addDirect := func(cl string, b []byte) {
+		direct = append(direct, b)
+		directClass = append(directClass, cl)
+	}
 	if c.replay != "" {
 		f := strings.Fields(c.replay)
 		switch {
 		case len(f) == 8 && f[1] == "sess":
 			seed, _ := strconv.ParseUint(f[5], 10, 64)
 			nops, _ := strconv.Atoi(f[6])
-			sess = append(sess, c03mkSession(f[2], f[3] == "1", f[4] == "1", seed, nops, f[7] == "1"))
+			sess = append(sess, sessParam{f[2], f[3] == "1", f[4] == "1", seed, nops, f[7] == "1"})
 		case len(f) == 3 && f[1] == "fsc":
 			b, _ := vlib.UnHex(f[2])
-			direct = append(direct, b)
-			directClass[0] = "replay"
+			addDirect("replay", b)
 		default:
 			res.Fail("machinery", c.replay, "cannot parse replay line", "replay")
 			return
@@ -794,7 +809,7 @@ func runC03(c *ctx) {
 	} else {
 		r := c.rng
 		// every version x option combination at every session length class
-		nSess := c.n(96, 4000)
+		nSess := c.n(320, 6000)
 		for i := 0; i < nSess; i++ {
 			v := []string{"1.0", "1.1"}[i%2]
 			sc := (i/2)%2 == 1
@@ -811,37 +826,75 @@ func runC03(c *ctx) {
 				nops = r.Range(13, 30)
 				small = true
 			}
-			sess = append(sess, c03mkSession(v, sc, nh, r.U64(), nops, small))
+			sess = append(sess, sessParam{v, sc, nh, r.U64(), nops, small})
 		}
 		// direct ForceSelfClosingTags inputs
 		g := c03gen{r: r}
 		fixed := []string{`<a><a x="1"/></a>`, `<interface><interface name="x"/></interface>`, `<a><b/></a>`, `<a x="1"></a>`,
 			`<a ></a>`, `<a  ></a>`, `<nc:a></nc:a>`, `<a> </a><a> </a>`, `<a x=">"></a>`, `<a><a x="1"/> </a>`, `<a></a></a>`,
-			`<a  x></a> </a>`, `<b><b x="1"></b></b>`, `<a/>`, ``, `<`, `>`, `</a>`, `<a></a`, `<a>\f</a>`, "<a>\v</a>", "<a> </a>", `<a-b_1></a-b_1>`, `<a></A>`}
+			`<a  x></a> </a>`, `<b><b x="1"></b></b>`, `<a/>`, ``, `<`, `>`, `</a>`, `<a></a`, "<a>\f</a>", "<a>\v</a>", "<a> </a>", `<a-b_1></a-b_1>`, `<a></A>`,
+			`<!-- <a></a> --><a></a>`, `<x <a></a>`, `</q <n a></n> </q>`, `<a <b></a>`, `<a></a><![CDATA[<a></a>]]>`}
 		for _, s := range fixed {
-			directClass[len(direct)] = "fixed"
-			direct = append(direct, []byte(s))
+			addDirect("fixed", []byte(s))
 		}
-		for i := 0; i < c.n(1500, 60000); i++ {
-			directClass[len(direct)] = "xml"
-			direct = append(direct, []byte(g.xmlDoc(g.size(true)/2+1, false)))
+		for i := 0; i < c.n(4000, 100000); i++ {
+			addDirect("xml", []byte(g.xmlDoc(g.size(true)/2+1, false)))
 		}
-		for i := 0; i < c.n(200, 8000); i++ {
-			directClass[len(direct)] = "xml-exotic"
-			direct = append(direct, []byte(g.xmlDoc(g.size(true)/2+1, true)))
+		for i := 0; i < c.n(600, 15000); i++ {
+			addDirect("xml-exotic", []byte(g.xmlDoc(g.size(true)/2+1, true)))
 		}
-		for i := 0; i < c.n(1500, 60000); i++ {
-			directClass[len(direct)] = "soup"
-			direct = append(direct, r.Bytes(r.Range(0, 40), []byte("<<>>//aab \n=\"x-")))
+		for i := 0; i < c.n(2500, 60000); i++ {
+			addDirect("soup", r.Bytes(r.Range(0, 40), []byte("<<>>//aab \n=\"x-")))
+		}
+		toks := []string{"<a", "<b", ">", "</a>", "</b>", " ", "/", ` x="1"`, "<!--", "-->", "\n", "</a", "<", "a", " x", "/>", "<a>", "<b>", "</a >"}
+		for i := 0; i < c.n(2500, 60000); i++ {
+			var b []byte
+			for k := r.Range(0, 14); k > 0; k-- {
+				b = append(b, r.Pick(toks)...)
+			}
+			addDirect("token-soup", b)
 		}
 	}
-	c03direct(c, direct, directClass)
-	c03sessions(c, sess)
+	for lo := 0; lo < len(direct); lo += 4000 {
+		hi := lo + 4000
+		if hi > len(direct) {
+			hi = len(direct)
+		}
+		c03direct(c, direct[lo:hi], directClass[lo:hi])
+	}
+	c03directNotes(res)
+	for lo := 0; lo < len(sess); lo += 160 {
+		hi := lo + 160
+		if hi > len(sess) {
+			hi = len(sess)
+		}
+		var batch []c03sessCase
+		for _, p := range sess[lo:hi] {
+			batch = append(batch, c03mkSession(p.v, p.sc, p.nh, p.seed, p.nops, p.small))
+		}
+		c03sessions(c, batch)
+	}
+}
+
+var c03inDom, c03total = map[string]int{}, map[string]int{}
+
+// c03timeouts counts requests that got no reply; see c03sessions.
+var c03timeouts atomic.Int32
+
+func c03directNotes(res *vlib.Result) {
+	var keys []string
+	for k := range c03total {
+		keys = append(keys, k)
+	}
+	sort.Strings(keys)
+	for _, k := range keys {
+		res.Note("direct tie, class %s: %d/%d inputs in the single-pass scanner's domain (scanner = FindAll+ReplaceAll model); implementation compared with the FindAll+ReplaceAll model on all of them", k, c03inDom[k], c03total[k])
+	}
 }
 
 // c03direct ties the exported ForceSelfClosingTags to the scanner model and to the proved checker
 // of the rewrite relation.
-func c03direct(c *ctx, inputs [][]byte, class map[int]string) {
+func c03direct(c *ctx, inputs [][]byte, class []string) {
 	res := c.res
 	if len(inputs) == 0 {
 		return
@@ -855,53 +908,54 @@ func c03direct(c *ctx, inputs [][]byte, class map[int]string) {
 		lines = append(lines, "c03 fsc "+vlib.Hex(in), "c03 chk "+vlib.Hex(in)+" "+vlib.Hex(outs[i]))
 	}
 	ans := c.ask(lines)
-	agreeSoup, soup := 0, 0
+	inDom, total := c03inDom, c03total
 	for i, in := range inputs {
 		cl := class[i]
 		res.Count("direct:" + cl)
 		res.Case("fsc:"+string(in), bytes.Contains(in, []byte("</")))
 		caseLine := "c03 fsc " + vlib.Hex(in)
 		f := strings.Fields(ans[2*i])
-		if len(f) != 2 {
+		if len(f) != 4 {
 			res.Fail("machinery", caseLine, "driver answered "+ans[2*i], "driver")
 			continue
 		}
-		model, _ := vlib.UnHex(f[0])
-		asIs, _ := vlib.UnHex(f[1])
+		dom := f[0] == "1" // single-pass scanner (theorems) == statement-by-statement model
+		scanner, _ := vlib.UnHex(f[1])
+		model, _ := vlib.UnHex(f[2])
+		asIs, _ := vlib.UnHex(f[3])
 		legal := ans[2*i+1] == "1"
-		res.InDomain++
+		total[cl]++
+		if dom {
+			inDom[cl]++
+			res.InDomain++
+		}
 		if i%499 == 0 {
 			res.Sample(map[string]any{"class": "direct-" + cl, "input": string(in), "impl": string(outs[i]), "model": string(model)})
 		}
 		// oracle: the output must be the input with some empty elements closed, nothing else
 		if !legal {
-			res.Fail("oracle", caseLine, fmt.Sprintf("ForceSelfClosingTags(%q) = %q is not the input with empty elements closed (repaired model: %q)", in, outs[i], model),
+			res.Fail("oracle", caseLine, fmt.Sprintf("ForceSelfClosingTags(%q) = %q is not the input with empty elements closed (repaired model: %q)", in, outs[i], scanner),
 				c03fscSig(outs[i], model, asIs))
 			continue
 		}
-		// correspondence with the scanner. Inputs with comments / CDATA / processing instructions
-		// and tag soup are outside the scanner's claimed domain only where bytes.ReplaceAll's
-		// "every textual occurrence" semantics shows (still a legal rewrite, checked above).
+		// correspondence with the statement-by-statement model (FindAllSubmatch + ReplaceAll), all inputs
 		if !bytes.Equal(outs[i], model) {
-			if cl == "soup" || cl == "xml-exotic" {
-				res.Count("direct-replaceall-divergence:" + cl)
-			} else {
-				res.Fail("correspondence", caseLine, fmt.Sprintf("ForceSelfClosingTags(%q) = %q, model %q", in, outs[i], model), c03fscSig(outs[i], model, asIs))
+			res.Fail("correspondence", caseLine, fmt.Sprintf("ForceSelfClosingTags(%q) = %q, model %q", in, outs[i], model), c03fscSig(outs[i], model, asIs))
+			continue
+		}
+		// generated XML without comments / CDATA / processing instructions must be in the scanner's domain
+		if !dom && cl == "xml" {
+			res.Fail("machinery", caseLine, fmt.Sprintf("scanner %q and statement-by-statement model %q differ on plain XML %q", scanner, model, in), "scanner-domain")
+		}
+		if dom && !bytes.Equal(twice[i], outs[i]) {
+			sig := "selfclose-not-idempotent"
+			if bytes.Contains(twice[i], []byte("//>")) {
+				sig = "selfclose-rewrites-already-self-closed-element"
 			}
-		} else if cl == "soup" {
-			agreeSoup++
-		}
-		if cl == "soup" {
-			soup++
-		}
-		if !bytes.Equal(twice[i], outs[i]) && cl != "soup" && cl != "xml-exotic" {
-			res.Fail("correspondence", caseLine, fmt.Sprintf("ForceSelfClosingTags is not idempotent on %q: %q then %q", in, outs[i], twice[i]), "selfclose-not-idempotent")
+			res.Fail("correspondence", caseLine, fmt.Sprintf("ForceSelfClosingTags is not idempotent on %q: %q then %q", in, outs[i], twice[i]), sig)
 		}
 	}
 	res.TracesVsImpl += len(inputs)
-	if soup > 0 {
-		res.Note("direct tie: %d/%d tag-soup inputs agree byte for byte with the scanner model (the rest differ only through bytes.ReplaceAll's every-occurrence semantics; all outputs are legal rewrites)", agreeSoup, soup)
-	}
 }
 
 func c03sessions(c *ctx, sess []c03sessCase) {
@@ -913,23 +967,49 @@ func c03sessions(c *ctx, sess []c03sessCase) {
 		obs, ref c03obs
 		inners   [][]byte
 		ok       bool
+		skipped  bool
 	}
 	runs := make([]run, len(sess))
-	// 1. run the real driver (and the reference session without options for the marshalled bodies)
-	for i, sc := range sess {
-		runs[i].obs = c03runSession(sc.v, sc.sc, sc.nh, sc.ops)
-		if sc.sc || !sc.nh {
-			runs[i].ref = c03runSession(sc.v, false, true, sc.ops)
-		} else {
-			runs[i].ref = runs[i].obs
-		}
+	// 1. run the real driver (and the reference session without options for the marshalled bodies);
+	// sessions are independent, so they run on a few workers (results are gathered by index).
+	// When requests keep timing out (a framing defect makes the server simulator wait for more
+	// bytes) the remaining sessions are skipped: the verdict is already decided.
+	var wg sync.WaitGroup
+	next := make(chan int)
+	for w := 0; w < 8; w++ {
+		wg.Add(1)
+		go func() {
+			defer wg.Done()
+			for i := range next {
+				sc := sess[i]
+				if c03timeouts.Load() >= 8 {
+					runs[i].skipped = true
+					continue
+				}
+				runs[i].obs = c03runSession(sc.v, sc.sc, sc.nh, sc.ops)
+				if sc.sc || !sc.nh {
+					runs[i].ref = c03runSession(sc.v, false, true, sc.ops)
+				} else {
+					runs[i].ref = runs[i].obs
+				}
+			}
+		}()
 	}
+	for i := range sess {
+		next <- i
+	}
+	close(next)
+	wg.Wait()
 	// 2. strip the rpc envelope of every reference body (model: rpcBody (101+k) inner)
 	var lines []string
 	type key struct{ s, k int }
 	var idx []key
 	for i := range sess {
 		o := &runs[i]
+		if o.skipped {
+			res.Count("session:skipped-after-repeated-timeouts")
+			continue
+		}
 		if o.obs.openErr != "" || o.ref.openErr != "" {
 			res.Fail("oracle", sess[i].line, "session did not open: "+o.obs.openErr+o.ref.openErr, "open-failed")
 			continue
@@ -972,6 +1052,11 @@ func c03sessions(c *ctx, sess []c03sessCase) {
 	j := 0
 	var chk []string
 	var chkIdx []key
+	// correspondence findings are held back until the session has been compared with the model of
+	// the code as it is (only used to classify: a session that differs from the repaired model
+	// exactly the way the recorded self-closing defect does carries that defect's signature)
+	type pend struct{ detail, sig string }
+	pending := map[int][]pend{}
 	for i, sc := range sess {
 		o := &runs[i]
 		if !o.ok {
@@ -1028,7 +1113,7 @@ func c03sessions(c *ctx, sess []c03sessCase) {
 		}
 		// correspondence: wire, Input, FramedInput against the model
 		if d := c03firstDiff(o.obs.wire, mWire); d >= 0 {
-			res.Fail("correspondence", sc.line, fmt.Sprintf("bytes written to the transport differ from the model at offset %d: impl %s model %s", d, c03around(o.obs.wire, d), c03around(mWire, d)), "wire-vs-model")
+			pending[i] = append(pending[i], pend{fmt.Sprintf("bytes written to the transport differ from the model at offset %d: impl %s model %s", d, c03around(o.obs.wire, d), c03around(mWire, d)), "wire-vs-model"})
 		}
 		var inputs [][]byte
 		for n, k := range sentIdx {
@@ -1050,10 +1135,10 @@ func c03sessions(c *ctx, sess []c03sessCase) {
 						sig = "selfclose-rewrites-already-self-closed-element"
 					}
 				}
-				res.Fail("correspondence", sc.line, fmt.Sprintf("request %d (%s): Response.Input differs from the model at %d: impl %s model %s", n, op.describe(), d, c03around(in, d), c03around(mRaws[n], d)), sig)
+				pending[i] = append(pending[i], pend{fmt.Sprintf("request %d (%s): Response.Input differs from the model at %d: impl %s model %s", n, op.describe(), d, c03around(in, d), c03around(mRaws[n], d)), sig})
 			}
 			if d := c03firstDiff(o.obs.framed[k], mFramed[n]); d >= 0 {
-				res.Fail("correspondence", sc.line, fmt.Sprintf("request %d (%s): Response.FramedInput differs from the model at %d: impl %s model %s", n, op.describe(), d, c03around(o.obs.framed[k], d), c03around(mFramed[n], d)), "framed-vs-model")
+				pending[i] = append(pending[i], pend{fmt.Sprintf("request %d (%s): Response.FramedInput differs from the model at %d: impl %s model %s", n, op.describe(), d, c03around(o.obs.framed[k], d), c03around(mFramed[n], d)), "framed-vs-model"})
 			}
 			// oracle: the declaration is present exactly when the option is off
 			if bytes.HasPrefix(in, []byte(c03Header)) == sc.nh {
@@ -1103,6 +1188,36 @@ func c03sessions(c *ctx, sess []c03sessCase) {
 					break
 				}
 			}
+		}
+	}
+	// 3b. classify and emit the held-back correspondence findings
+	var pidx []int
+	for i := range sess {
+		if len(pending[i]) > 0 {
+			pidx = append(pidx, i)
+		}
+	}
+	var asisLines []string
+	for _, i := range pidx {
+		if sess[i].sc {
+			asisLines = append(asisLines, fmt.Sprintf("c03 session-asis %s %s %s %s", sess[i].v, c03b(sess[i].sc), c03b(sess[i].nh), vlib.HexList(runs[i].inners)))
+		}
+	}
+	asis := c.ask(asisLines)
+	q := 0
+	for _, i := range pidx {
+		known := false
+		if sess[i].sc {
+			w, _ := vlib.UnHex(asis[q])
+			q++
+			known = bytes.Equal(w, runs[i].obs.wire)
+		}
+		for _, p := range pending[i] {
+			sig := p.sig
+			if known {
+				sig = "selfclose-rewrites-already-self-closed-element"
+			}
+			res.Fail("correspondence", sess[i].line, p.detail, sig)
 		}
 	}
 	// 4. rewrite legality of every self-closed input, message-ids read back by the model
